@@ -42,6 +42,23 @@ PROFILES = {
               ("send", 2), ("asend", 1), ("close", 1), ("obs", 1)],
         recv=[("try_recv", 4), ("try_recv_realtime", 4), ("drain_into", 4), ("recv", 2), ("arecv", 1), ("close", 1), ("obs", 1)],
         caps=[0, 1, 2, None], nprocs=[2, 3], nops=[1, 2, 3], payloads=["w1", "b3"]),
+    "fifo": dict(
+        send=[("send", 6), ("asend_await", 4), ("send_timeout_long", 2), ("try_send", 2)],
+        recv=[("recv", 6), ("try_recv", 3), ("drain_into", 3), ("arecv_await", 3), ("stream_long", 2), ("recv_timeout", 1)],
+        caps=[0, 1, 1, 2, 2, None], nprocs=[3, 3, 4], nops=[3, 3, 4], payloads=["w1", "b3", "h4"], late=0.25,
+        sides=["s", "s", "r"]),
+    "capacity": dict(
+        send=[("send", 5), ("try_send", 4), ("try_send_option", 2), ("asend", 4), ("send_timeout", 2), ("obs_len", 3)],
+        recv=[("recv", 4), ("try_recv", 3), ("drain_into", 2), ("arecv", 2), ("obs_len", 3)],
+        caps=[0, 0, 1, 2, 3, None], nprocs=[2, 3, 3, 4], nops=[2, 3, 4], payloads=["w1", "b3"], late=0.4, late_side="r"),
+    "close": dict(
+        send=[("send", 4), ("try_send", 2), ("send_timeout", 2), ("send_option_timeout", 1), ("asend", 3), ("close", 3), ("obs", 2), ("clone", 1)],
+        recv=[("recv", 4), ("try_recv", 2), ("recv_timeout", 2), ("drain_into", 1), ("arecv", 3), ("stream", 1), ("close", 3), ("obs", 2), ("is_terminated", 1), ("clone", 1)],
+        caps=[0, 0, 1, 2, None], nprocs=[2, 3, 3, 4], nops=[2, 3, 4], payloads=["w1", "b3", "h4"], late=0.3),
+    "disconnect": dict(
+        send=[("send", 4), ("try_send", 2), ("send_timeout", 1), ("asend", 3), ("drop", 3), ("clone", 2), ("obs", 1)],
+        recv=[("recv", 4), ("try_recv", 2), ("recv_timeout", 1), ("drain_into", 1), ("arecv", 3), ("stream", 1), ("drop", 3), ("clone", 2), ("obs", 1), ("is_terminated", 1)],
+        caps=[0, 0, 1, 2, None], nprocs=[2, 3, 3, 4], nops=[2, 3, 4], payloads=["w1", "b3"], late=0.3),
     "drain": dict(
         send=[("send", 6), ("asend", 4), ("try_send", 2), ("send_timeout", 1), ("close", 1), ("drop", 1)],
         recv=[("drain_into", 8), ("recv", 1), ("try_recv", 1), ("close", 1), ("obs", 1)],
@@ -67,7 +84,8 @@ def gen_program(rng, profile="general", payload=None, cap="rand"):
     maxid = 190
     procs = []
     # at least one sender process and one receiver process
-    sides = ["s", "r"] + [rng.choice("sr") for _ in range(n - 2)]
+    sides = list(pf.get("sides", ["s", "r"]))[:n]
+    sides += [rng.choice("sr") for _ in range(n - len(sides))]
     rng.shuffle(sides)
     for pi in range(n):
         side = sides[pi]
@@ -112,6 +130,21 @@ def gen_program(rng, profile="general", payload=None, cap="rand"):
                 ops.append({"op": o, "h": h, "d": d})
             elif o == "drain_into":
                 ops.append({"op": o, "h": h, "pre": rng.choice([0, 0, 1, 2]), "spare": rng.choice([0, 0, 1, 4])})
+            elif o == "send_timeout_long":
+                ops.append({"op": "send_timeout", "h": h, "m": m, "d": 50})
+            elif o == "obs_len":
+                ops.append({"op": rng.choice(["len", "is_full", "is_empty", "len"]), "h": h})
+            elif o in ("asend_await", "arecv_await"):
+                f = nf
+                nf += 1
+                ops.append({"op": "asend_new" if o == "asend_await" else "arecv_new", "h": h, "f": f, "m": m})
+                ops.append({"op": "await", "f": f, "w": 1})
+            elif o == "stream_long":
+                f = nf
+                nf += 1
+                ops.append({"op": "stream_new", "h": h, "f": f})
+                for _ in range(rng.choice([2, 3, 4])):
+                    ops.append({"op": "await", "f": f, "w": rng.choice([1, 1, 2])})
             elif o in ("asend", "arecv", "stream"):
                 f = nf
                 nf += 1
@@ -146,7 +179,10 @@ def gen_program(rng, profile="general", payload=None, cap="rand"):
                 ops.append({"op": rng.choice(["to_sync", "to_async"]), "h": h})
             elif o == "obs":
                 ops.append({"op": rng.choice(OBS), "h": h})
-        procs.append({"phase": 0, "handles": handles, "ops": ops})
+        phase = 0
+        if rng.random() < pf.get("late", 0.1) and pf.get("late_side", side) == side:
+            phase = 1
+        procs.append({"phase": phase, "handles": handles, "ops": ops})
     return {"cap": capv, "payload": pl, "procs": procs}
 
 
